@@ -260,7 +260,22 @@ def _arange(it, args, kwargs):
     vals = [norm(a) for a in args]
     if all(isinstance(v, int) for v in vals):
         return as_array(list(range(*vals)))
-    raise Undecided("np.arange with symbolic bounds")
+    # symbolic bounds: the length ceil((stop - start)/step) must be determined by the path condition (exact real arithmetic; the
+    # off-by-one that floating point can produce in np.arange is part of "rounding is not modelled")
+    from .smt import quick_sat
+    if len(vals) == 1:
+        start, stop, step = 0, vals[0], 1
+    elif len(vals) == 2:
+        start, stop, step = vals[0], vals[1], 1
+    else:
+        start, stop, step = vals[:3]
+    start, stop, step = (sym.to_sym(v) for v in (start, stop, step))
+    span = stop - start
+    for n in range(0, 9):
+        cond = sym.And(sym.Gt(step, 0), sym.Le(span, n * step), sym.Gt(span, (n - 1) * step)) if n > 0 else sym.And(sym.Gt(step, 0), sym.Le(span, 0))
+        if quick_sat(list(it.pc) + [sym.Not(cond)], 3000) == "unsat":
+            return as_array([start + k * step for k in range(n)])
+    raise Undecided("np.arange with symbolic bounds whose length the path condition does not determine (or longer than 8)")
 
 
 @handler("numpy.linspace")
